@@ -35,14 +35,16 @@ def translate_time(c):
     drop = c.pick("drop", [True, False])
     fw = c.pick("frame_digits", [1, 2, 3, 4, 5])        # (get_time adds the words sent so far to the frame field: it outgrows two digits)
     H, M, S, F = c.digits("H", n=2), c.digits("M", n=2), c.digits("S", n=2), c.digits("F", n=fw)
-    offset = c.int("offset_us", 0, 10 ** 11)
+    later = c.pick("offset_moves_captions_later", [False, True])      # a negative offset: "minus the offset" adds
+    mag = c.int("offset_us", 0, 10 ** 11)
+    offset = 0 - mag if later else mag
     stamp = H + ":" + M + ":" + S + (";" if drop else ":") + F
     r = c.call(_SccTimeTranslator._translate_time, stamp, offset)
     secs = c.ratio(H.val * 3600 + M.val * 60 + S.val, 1) + c.ratio(F.val, 30)
     T = secs * (1 if drop else Fraction(1001, 1000)) * 10 ** 6
     E = T - offset
     rv = c.exact(r)
-    tol = 16 * U * T + Fraction(1, 10 ** 9)
+    tol = 16 * U * (T + mag if later else T) + Fraction(1, 10 ** 9)
     c.ensure("never_negative", rv >= 0)
     c.ensure("value_when_positive", c.implies(E >= tol, c.conj(rv - E <= tol, E - rv <= tol)))
     c.ensure("floored_at_zero", c.implies(E <= -tol, rv == 0))
@@ -55,7 +57,7 @@ def get_time(c):
     drop = c.pick("drop", [True, False])
     H, M, S, F = c.digits("H", n=2), c.digits("M", n=2), c.digits("S", n=2), c.digits("F", n=2)
     frames = c.int("frames", 0, 10 ** 4)
-    offset = c.int("offset_us", 0, 10 ** 11)
+    offset = c.int("offset_us", -10 ** 11, 10 ** 11)
     sep = ";" if drop else ":"
     tt = c.new(_SccTimeTranslator, _time=H + ":" + M + ":" + S + sep + F, _frames=frames, offset=offset)
     seen = []
@@ -282,8 +284,9 @@ def program(rng, drop, dbl, sep_edm, gaps):
 def encode(lines, drop, dbl):
     out = []
     timeline = []           # (kind, frames since stream start) for EOC / EDM first transmissions
-    for t, words in lines:
+    for li, (t, words) in enumerate(lines):
         ws = []
+        line_drop = drop[li % len(drop)] if isinstance(drop, (list, tuple)) else drop
         for w, is_ctrl in words:
             enc = {"ENM": C.ctrl("ENM"), "RCL": C.ctrl("RCL"), "EDM": C.ctrl("EDM"), "EOC": C.ctrl("EOC"),
                    "PAC": C.pac(15)}.get(w)
@@ -298,23 +301,23 @@ def encode(lines, drop, dbl):
                     ws.append(tw)
                 continue
             if w in ("EOC", "EDM"):
-                timeline.append((w, t + len(ws)))
+                timeline.append((w, t + len(ws), line_drop))
             ws.append(enc)
             if dbl:
                 ws.append(enc)
-        out.append((C.timecode(t, drop), ws))
+        out.append((C.timecode(t, line_drop), ws))
     return C.scc_document(out), timeline
 
 
 def reference_times(timeline, drop, offset_s, band=0):
     """band: the code decides the five-frame threshold with a tolerance of one microsecond (floats);
     a gap of five frames up to five frames + `band` microseconds counts as closed as well"""
-    rho = 1 if drop else Fraction(1001, 1000)
-
-    def us(frames):
-        return max(Fraction(0), Fraction(frames, 30) * rho * 10 ** 6 - offset_s * 10 ** 6)
+    def us(ev):
+        # the kind of timecode is a matter of the LINE the word is on (a spliced file has both kinds)
+        rho = 1 if ev[1] else Fraction(1001, 1000)
+        return max(Fraction(0), Fraction(ev[0], 30) * rho * 10 ** 6 - offset_s * 10 ** 6)
     caps = []
-    for kind, fr in timeline:
+    for kind, *fr in timeline:
         if kind == "EOC":
             if caps and caps[-1][1] is None:
                 caps[-1][1] = us(fr)
@@ -336,7 +339,7 @@ def bounded(ctx, b):
     nopt = 0
     for drop, dbl, sep_edm in itertools.product([True, False], repeat=3):
         for gaps in itertools.product(gaps_alpha, repeat=2):
-            for offset in (0, 1, 3) + ((45,) if (drop, dbl, sep_edm, gaps) == (True, False, False, (30, 30)) else ()):
+            for offset in (0, 1, 3, -2) + ((45,) if (drop, dbl, sep_edm, gaps) == (True, False, False, (30, 30)) else ()):
                 lines = program(rng, drop, dbl, sep_edm, list(gaps) + [30])
                 # reader options that do not concern pop-on timing leave it alone: the language label, roll-up simulation
                 nopt += 1
@@ -359,6 +362,18 @@ def bounded(ctx, b):
                     return ok, {"got": got, "expected": [(float(s), float(e)) for s, e in ref], "doc": doc[:500], "options": opts}
                 b.guard((drop, dbl, sep_edm, gaps, offset), one, sample={"drop": drop, "doubled": dbl, "separate_edm": sep_edm, "gaps": gaps, "offset_s": offset, "options": opts,
                                                                          "offset_beyond_caption_end": offset == 45})
+    # spliced files: drop-frame and non-drop-frame lines in one stream, each line translated by its own separator
+    for kinds, dbl, sep_edm in itertools.product([(True, False), (False, True), (True, True, False), (False, False, True, True)], [True, False], [True, False]):
+        lines = program(rng, kinds[0], dbl, sep_edm, [30, 30, 30])
+        for offset in (0, 2):
+            def spliced(lines=lines, kinds=kinds, dbl=dbl, offset=offset):
+                doc, timeline = encode(lines, kinds, dbl)
+                ref = reference_times(timeline, None, offset)
+                cs = _SHARED_READER.read(doc, offset=offset)
+                got = [(c_.start, c_.end) for c_ in cs.get_captions("en-US")]
+                ok = len(got) == len(ref) and all(abs(Fraction(g[0]) - r_[0]) <= 1 and abs(Fraction(g[1]) - r_[1]) <= 1 for g, r_ in zip(got, ref))
+                return ok, {"got": got, "expected": [(float(s), float(e)) for s, e in ref], "doc": doc[:500]}
+            b.guard(("spliced", kinds, dbl, sep_edm, offset), spliced, sample={"case": "lines with both kinds of timecode", "drop_by_line": kinds, "doubled": dbl, "separate_edm": sep_edm, "offset_s": offset})
     # a caption shown for a few frames only, the next one loaded right behind it on the same line: whether it is
     # a flash is decided AFTER a gap under five frames has been closed
     for drop, dbl in itertools.product([True, False], repeat=2):
